@@ -1006,6 +1006,26 @@ Proof.
            root_url m s (chk_root m Hroot) Hs Hcoh).
 Qed.
 
+(* ---------- one parameter / response on a checked graph (the single-element entry points, C10) ---------- *)
+Theorem checked_por_step kind d fuel s rroot base j s' j' :
+  PorIn GE kind base j -> St s -> Coh cwd rroot base ->
+  expand_por E docs cwd OP live (exp E docs cwd OP ctx_base live d) fuel s rroot base kind j = Done (s', j') ->
+  St s' /\ por_rel E docs cwd sound_schema kind base j j'.
+Proof.
+  intros Hin Hs Hcoh H.
+  apply (por_step E docs cwd OP live rid live_served strict St (fun s0 Hs0 => proj1 Hs0) MD
+           (fun s0 x Hs0 Hx => proj2 Hs0 x Hx)
+           (fun s0 s0' Hs0 Hi Hm => conj Hi (fun x Hx => proj2 Hs0 x (eq_ind _ (fun l => In x l) Hx _ Hm)))
+           G (exp E docs cwd OP ctx_base live d) sound_schema
+           (fun s0 rr b t s0' t' Hg Hs0 Hc He =>
+              let HP : PInv E docs cwd G bad0 [] (b, t) := fun p Hp => match Hp with end in
+              conj (proj1 (checked_graph_cyc E docs cwd OP ctx_base rid nodes live bad0 Hck live_served strict noskip d s0 [] rr b t s0' t' Hg Hs0 Hc HP He))
+                   (conj (proj2 (checked_graph_sim E docs cwd OP ctx_base rid nodes live Hck live_served strict d s0 [] rr b t s0' t' Hg (proj1 Hs0) Hc He))
+                         (proj2 (checked_graph_cyc E docs cwd OP ctx_base rid nodes live bad0 Hck live_served strict noskip d s0 [] rr b t s0' t' Hg Hs0 Hc HP He))))
+           GE (GEN_holder E docs cwd enodes nodes Hcke) (GEN_target E docs cwd enodes nodes Hcke) (GEN_same E docs cwd enodes nodes Hcke)
+           (GEN_schema E docs cwd enodes nodes Hcke) chk_fresh rank_of chk_rank fuel kind s rroot base j s' j' Hin Hs Hcoh H).
+Qed.
+
 (* ---------- SkipSchemas mode ---------- *)
 Lemma exp_skip_state : o_skip OP = true -> forall d s ps rr b t s' t',
   G b t -> exp E docs cwd OP ctx_base live d s ps rr b t = Done (s', t') -> s' = s.
